@@ -29,7 +29,7 @@ def obligations(tier):
     obs.append(Ob("C04.contain_threaded", F, "contain_threaded", 300, what=w + " (threaded=True)"))
     obs.append(Ob("C04.compile_fail", F, "compile_fail", 120, what="non-compiling student file: run() returns, SyntaxError recorded, one runtime feedback"))
     obs.append(Ob("C04.locate", "harness/C04_locate.py", "locate", 120, what="16 concrete failing programs (real exec, untraced; solver enumerates the menu; incl. failures raised inside or through library frames and files that do not compile): the runtime feedback's line is the line CPython's traceback gives for the innermost student frame (or the SyntaxError names), through run() and call()"))
-    obs.append(Ob("C04.odd_exceptions", "harness/C04_locate.py", "odd_exceptions", 120, what="8 programs raising unusual exception objects (frozen dataclass, refusing __setattr__, KeyError subclass, two-argument constructor, container arguments, __slots__, metaclass, bare class) through run() and call(): contained, one runtime feedback, located on the raising line"))
+    obs.append(Ob("C04.odd_exceptions", "harness/C04_locate.py", "odd_exceptions", 120, what="12 programs raising unusual exception objects (frozen dataclass, refusing __setattr__, KeyError subclass, two-argument constructor, container arguments, __slots__, metaclass, bare class, nameless class, lower-case name, nested class, bare Exception) through run() and call(): contained, one runtime feedback, located on the raising line"))
     obs.append(Ob("C04.multi_file", "harness/C04_locate.py", "multi_file", 200, what="two-file submissions (answer.py imports a helper that fails on import, menu of 4 helpers): run once or twice, import at module level or inside a called function, optionally a guarded import first - every execution that reaches the failing import reports it (exception + exactly one new runtime feedback), also the second time"))
     obs.append(Ob("C04.real_programs", "harness/C04_locate.py", "real_programs", 200, what="16 concrete programs through the real exec (blocked compile/eval/exec/globals/exit, import pedal, open outside the sandbox, sys.exit, raise SystemExit, unbounded recursion, broken __str__/__repr__, closed stdout, compile failures): run()/evaluate() return normally, one runtime feedback, exception recorded"))
     obs.append(Ob("C04.contain_reach", F, "contain_reach", 60, expect="refute", what="twin: a runtime feedback is produced"))
